@@ -33,6 +33,10 @@ fn statements() -> Vec<String> {
             "x += 'a'", "x /= 0", "x <<= 64", "x += 0.5", "y += x", "x -= y", "x", "y", "y = x", "x = y + 1", "x = (y = 3)", "x = y = 3",
             "1 = 2", "nofn() = 2", "(x) = 4", "x = x", "x ++", "x = x ++", "x += snd(x = 10, 2)", "y = snd(x = 6, x)", "x = [x = 5, x]",
             "min = 3", "min += 1", "y = min(8, 9)", "x = y ? 1 : 2", "x = true ? (y = 7) : 2", "x + 1 = 5", "'s' = 1", "x = y = nothere = 4",
+            // assignments inside the arguments of a call that cannot be resolved / whose callee is re-bound
+            "nofn(x = 2, y = 3)", "y = snd(snd = 5, 1)", "y = snd(1, 2) + snd(x = 8, 1)",
+            // a never-bound name reads as None even if a function of that name is registered
+            "x = mul", "sum += 1", "y = max",
         ]
         .iter()
         .map(|s| s.to_string()),
